@@ -115,13 +115,14 @@ class ClassInfo:
     bases: List[str]
     methods: Dict[str, FuncInfo] = field(default_factory=dict)
     class_attrs: Dict[str, ast.expr] = field(default_factory=dict)  # mangled name -> value expr
+    annotations: Dict[str, ast.expr] = field(default_factory=dict)  # dataclass-style field declarations
     _field_types: Optional[Dict[str, ast.expr]] = None
 
     def field_types(self) -> Dict[str, ast.expr]:
         """field name (mangled) -> annotation expr, inferred from the class source."""
         if self._field_types is not None:
             return self._field_types
-        ft: Dict[str, ast.expr] = {}
+        ft: Dict[str, ast.expr] = dict(self.annotations)
         for m in self.methods.values():
             params: Dict[str, ast.expr] = {}
             for a in m.node.args.args + m.node.args.kwonlyargs:
@@ -218,6 +219,8 @@ def load_module(relpath: str) -> ModuleInfo:
                     ci.class_attrs[mangle(sub.targets[0].id, node.name)] = sub.value
                 elif isinstance(sub, ast.AnnAssign) and isinstance(sub.target, ast.Name) and sub.value is not None:
                     ci.class_attrs[mangle(sub.target.id, node.name)] = sub.value
+                elif isinstance(sub, ast.AnnAssign) and isinstance(sub.target, ast.Name):
+                    ci.annotations[mangle(sub.target.id, node.name)] = sub.annotation
             mi.classes[node.name] = ci
         elif isinstance(node, ast.FunctionDef):
             mi.functions[node.name] = FuncInfo(module=mi, cls=None, node=node, name=node.name, decorators=_decorator_names(node))
